@@ -613,7 +613,30 @@ def check(fx, rep, tier):
     # from byte 0x5b of the table (C08 R08.1 / R08.4, re-evaluated)
     from .. import core
 
-    core.import_rules(rep, fx, "C08", "R10.5", only_rules=("R08.1", "R08.4"), floor=5, what="jump-destination obligations (C08 R08.1 / R08.4) behind 'push immediates are never jump destinations'")
+    core.import_rules(rep, fx, "C08", "R10.5", only_rules=("R08.1", "R08.2", "R08.4"), floor=8, what="jump-destination obligations (C08 R08.1 / R08.2 / R08.4) behind 'push immediates are never jump destinations'")
+    # bytes with no assigned opcode behave as INVALID: the type they all disassemble to does the same thing whatever byte it
+    # carries (its execute does not look at the byte) and ends the path without failing the analysis
+    from .. import tables as _tables
+
+    assigned = {int(r[0], 16) for r in _tables.read("evm_opcodes.tsv")}
+    byte_type = {}
+    for a in dm.arms:
+        ts = sorted({t for t, _ in a["ctors"]})
+        for x in a["bytes"]:
+            byte_type[x] = ts[0] if len(ts) == 1 else None
+    inv_t = byte_type.get(0xFE)
+    un_types = sorted({str(byte_type.get(x)) for x in range(256) if x not in assigned})
+    if rep.anchor("R10.5", inv_t is not None and un_types == [inv_t], f"one opcode type for INVALID and every unassigned byte (found {un_types})"):
+        eb = next((b for i, b in fx.trait_method_bodies("opcode::Opcode", "execute") if i.get("self_adt") == inv_t), None)
+        if rep.anchor("R10.5", eb is not None, "execute of the INVALID opcode type"):
+            root = eb["hir"]["value"]
+            self_l = eb["hir"]["params"][0].get("local") if eb["hir"]["params"] else None
+            reads_byte = any(x.get("k") == "Field" and F.local_of(F.strip(x["e"])) == self_l for x, _ in F.walk(root)) or any(x.get("k") == "MethodCall" and F.local_of(F.strip(x["recv"])) == self_l for x, _ in F.walk(root))
+            from .. import terms as _T
+
+            leaves = [F.strip(x) for x in _T.result_leaves(root)]
+            all_ok = bool(leaves) and all(x.get("k") == "Call" and (F.path_def(x["f"]) or "").endswith("::Ok") for x in leaves)
+            rep.oblige(not reads_byte and all_ok, "R10.5", "unassigned-behaves-as-invalid", F.loc(eb["span"]), f"`{eb['def']}` " + ("looks at the byte it carries" if reads_byte else "can answer with an error") + ": bytes with no assigned opcode no longer all behave as INVALID (end the path, nothing else)", sample={"rule": "R10.5", "type": inv_t, "reads_self": reads_byte, "always_ok": all_ok})
 
     rep.exhaustive = True
     return rep.finish(
